@@ -2,7 +2,7 @@
    meaning), as a relation between the screen before and after, its boolean checker (the
    oracle), the precondition "in range", and the request interpreter of the model. *)
 From Coq Require Import ZArith List Bool Lia.
-From Tickit Require Import Csi VT TermPenDefs XtermDefs Gen_SgrOnOff.
+From Tickit Require Import Csi VT TermPenDefs TermPenSpec XtermDefs Gen_SgrOnOff.
 Import ListNotations.
 Local Open Scope Z_scope.
 
@@ -190,3 +190,27 @@ Fixpoint oracle_walk (i : nat) (v : vt) (obs : list (req * bool * list Z)) : ver
 (* the test pattern: every cell a different glyph *)
 Definition with_pattern (v : vt) : vt :=
   set_grid v (fun y x => mkCell (1000 + y * v_cols v + x) default_attrs).
+
+(* ---- the same walk with the MODEL producing the output (token level): every request that
+   is in range in the state it is issued in has its direct effect, and the next request finds
+   the screen in a good state again *)
+Fixpoint seq_ok (t : term) (v : vt) (qs : list req) : Prop :=
+  match qs with
+  | [] => True
+  | q :: rest =>
+      in_range q v ->
+      exists t' ret ts,
+        drv_req t q = Some (t', ret, ts) /\
+        effect_ok q ret (match ts with [] => true | _ => false end) v (vt_run ts v) /\
+        vt_ok (vt_run ts v) /\
+        seq_ok t' (vt_run ts v) rest
+  end.
+
+(* what ties the model's terminal object to the screen it draws on *)
+Definition SInv (t : term) (v : vt) : Prop :=
+  t_lines t = v_lines v /\ t_cols t = v_cols v /\
+  (cap_slrm (x_caps (t_drv t)) = true -> md_lrmm (v_md v) = true) /\
+  pen_in_range (t_pen t) /\
+  TermPenSpec.sgr_matches (cap_colon (x_caps (t_drv t))) (cap_rgb8 (x_caps (t_drv t))) (t_pen t) (v_sgr v).
+Definition req_pen_ok (q : req) : Prop :=
+  match q with RChpen p | RSetpen p => pen_in_range p | _ => True end.
